@@ -549,7 +549,7 @@ pub fn gen_draw_op(rng: &mut Rng, lw: i64, lh: i64, bits: u8, tags: &mut TagGen,
                 }];
             }
             2 | 3 | 4 => {
-                let px = gen_pixel_stream(rng, lw, lh, o.mode, tags, o.max_px.min(600) as usize, 50, 100);
+                let px = gen_pixel_stream(rng, lw, lh, o.mode, tags, o.max_px.min(600) as usize, if crate::small() { 6 } else { 50 }, if crate::small() { 12 } else { 100 });
                 return vec![Op::DrawIter { pixels: px }];
             }
             5 | 6 => {
@@ -567,7 +567,7 @@ pub fn gen_draw_op(rng: &mut Rng, lw: i64, lh: i64, bits: u8, tags: &mut TagGen,
                 // an infinite or huge stream over a rectangle whose skipped part is huge would
                 // take forever even in a correct driver: bound the points before the last visible one
                 let bound = last_visible_index(&r, lw, lh).unwrap_or(0);
-                if bound > (1 << 22) {
+                if bound > if crate::small() { 400 } else { 1 << 22 } {
                     continue;
                 }
                 let len = if area > (1 << 24) && len.map(|l| l > bound + 8).unwrap_or(true) { Some(bound + 1 + rng.below(8)) } else { len };
